@@ -1,16 +1,26 @@
 """C08 -- local tensor quadrature grids honour their exactness and point contracts.
 
 Correspondence: TrapezoidalGrid (boundary on/off, modified basis) and SimpsonGrid (boundary on/off) of the real code
-vs. Model/Quad (announced counts, point list, weight list, monomial moments) on random dyadic sub-boxes.
+vs. Model/Quad (announced counts, point list, weight list, monomial moments) on random dyadic sub-boxes; Gauss-Legendre
+affine map and Leja weights (certified exact solve) vs. the model on the implementation's own reference data.
 Oracle: the clauses of the property evaluated on the implementation for ALL local families (trapezoid, Simpson,
-Clenshaw-Curtis, Leja, Gauss-Legendre, Lagrange, B-spline): count, containment, sum of weights, exactness up to the
-nominal degree, and the trapezoidal boundary-off clause.
+Clenshaw-Curtis, Leja, Gauss-Legendre, Lagrange, B-spline, and MixedGrid tensors of different 1-D families with
+per-dimension boundary flags): count, containment, sum of weights, exactness up to the nominal degree, and the
+trapezoidal boundary-off clause.
 
 Reading (DESIGN.md C08): the sum / exactness clauses speak of the COMPLETE rule (boundary on, modified basis, or
 Gauss-Legendre which has no boundary flag); with boundary off only count + containment (+ for the trapezoidal family
 the literal "drops exactly the global-boundary points" clause) are demanded; Leja keeps an interpolatory rule on the
 points it returns, so its sum / exactness clauses are checked for both flags.  The hierarchical families (Lagrange,
-B-spline) are read through `grid.integrate` (their `weights` pair with surpluses)."""
+B-spline) are read through `grid.integrate` (their `weights` pair with surpluses).
+
+Hardening (catalogue a-l of AGENT_PROMPT_COMMON.md): every grid object serves several areas (history in the case);
+queries are repeated and the returned arrays overwritten before re-querying; a sibling grid (other flags / family, same
+box and levels) works before and between the main grid's calls; argument arrays are reused in place / passed as lists,
+tuples, numpy scalars; boundary flags as bool / numpy.bool_ / 0-1, per dimension through `set_boundaries` and MixedGrid;
+boxes far from the origin and tiny intervals (dyadic); areas built from the grid's own coordinates; every public read
+route (getWeight/getCoordinate/get_num_points/levelToNumPointsWithBoundary/get_boundaries) is compared with
+get_points_and_weights; `integrate` is observed at its use site (the points at which f is evaluated)."""
 import itertools
 import math
 from fractions import Fraction as Fr
@@ -22,6 +32,7 @@ from common import frac_str, parse_frac
 FAMILIES = ["Trapezoidal", "Simpson", "ClenshawCurtis", "Leja", "GaussLegendre", "Lagrange", "BSpline"]
 HIER = ("Lagrange", "BSpline")
 MODELLED = {"Trapezoidal": "trap", "Simpson": "simp"}
+MIXABLE = ["Trapezoidal", "Simpson", "ClenshawCurtis", "Leja", "GaussLegendre"]     # 1-D classes a MixedGrid is built from
 TOL = 1e-9
 
 
@@ -38,35 +49,87 @@ def vecstr(v):
     return ",".join(fstr(x) for x in v)
 
 
+def flags_of(case):
+    """per-dimension boundary flags (uniform unless the case carries `bflags`)"""
+    return [bool(x) for x in case["bflags"]] if case.get("bflags") else [bool(case["boundary"])] * case["dim"]
+
+
+def fams_of(case):
+    return list(case["fams"]) if case["family"] == "Mixed" else [case["family"]] * case["dim"]
+
+
+def conv_flag(flag, btype):
+    """the same truth value as python bool / numpy.bool_ / int 0-1"""
+    if btype == "np":
+        return np.bool_(flag)
+    if btype == "int":
+        return 1 if flag else 0
+    return bool(flag)
+
+
 def make_grid(case):
     from sparseSpACE import Grid as G
     fam = case["family"]
+    dim = case["dim"]
     a = np.array([float(fr(x)) for x in case["a"]])
     b = np.array([float(fr(x)) for x in case["b"]])
-    bd = bool(case["boundary"])
+    flags = flags_of(case)
+    btype = case.get("btype", "bool")
+    uniform = all(f == flags[0] for f in flags)
+    via_setter = case.get("route") == "set_boundaries"
+    assert uniform or via_setter or fam == "Mixed", "per-dimension flags need set_boundaries or MixedGrid"
+    bd = conv_flag(True if via_setter else flags[0], btype)
     # constructor option `integrator`: None -> IntegratorArbitraryGridScalarProduct (default), 'old' -> the point-by-point
     # IntegratorArbitraryGrid; every other value trips `assert False` in the constructors
     kw = {"integrator": case["integrator"]} if case.get("integrator") is not None else {}
+    if fam == "Mixed":
+        grids = []
+        for d, f1 in enumerate(case["fams"]):
+            fl = conv_flag(flags[d], btype)
+            if f1 == "Trapezoidal":
+                grids.append(G.TrapezoidalGrid1D(a=a[d], b=b[d], boundary=fl, modified_basis=False))
+            elif f1 == "Simpson":
+                grids.append(G.SimpsonGrid1D(a=a[d], b=b[d], boundary=fl))
+            elif f1 == "ClenshawCurtis":
+                grids.append(G.ClenshawCurtisGrid1D(a=a[d], b=b[d], boundary=fl))
+            elif f1 == "Leja":
+                grids.append(G.LejaGrid1D(a=a[d], b=b[d], boundary=fl))
+            elif f1 == "GaussLegendre":
+                grids.append(G.GaussLegendreGrid1D(a=a[d], b=b[d], boundary=False))
+            else:
+                raise ValueError(f1)
+        return G.MixedGrid(a, b, grids, **kw)
     if fam == "Trapezoidal":
-        return G.TrapezoidalGrid(a=a, b=b, boundary=bd, modified_basis=bool(case.get("modified", False)), **kw)
-    if fam == "Simpson":
-        return G.SimpsonGrid(a=a, b=b, boundary=bd, **kw)
-    if fam == "ClenshawCurtis":
-        return G.ClenshawCurtisGrid(a=a, b=b, boundary=bd, **kw)
-    if fam == "Leja":
-        return G.LejaGrid(a=a, b=b, boundary=bd, **kw)
-    if fam == "GaussLegendre":
-        return G.GaussLegendreGrid(a=a, b=b)
-    if fam == "Lagrange":
-        return G.LagrangeGrid(a=a, b=b, boundary=bd, p=int(case["p"]))
-    if fam == "BSpline":
-        return G.BSplineGrid(a=a, b=b, boundary=bd, p=int(case["p"]))
-    raise ValueError(fam)
+        g = G.TrapezoidalGrid(a=a, b=b, boundary=bd, modified_basis=bool(case.get("modified", False)), **kw)
+    elif fam == "Simpson":
+        g = G.SimpsonGrid(a=a, b=b, boundary=bd, **kw)
+    elif fam == "ClenshawCurtis":
+        g = G.ClenshawCurtisGrid(a=a, b=b, boundary=bd, **kw)
+    elif fam == "Leja":
+        g = G.LejaGrid(a=a, b=b, boundary=bd, **kw)
+    elif fam == "GaussLegendre":
+        g = G.GaussLegendreGrid(a=a, b=b)
+    elif fam == "Lagrange":
+        g = G.LagrangeGrid(a=a, b=b, boundary=bd, p=int(case["p"]))
+    elif fam == "BSpline":
+        g = G.BSplineGrid(a=a, b=b, boundary=bd, p=int(case["p"]))
+    else:
+        raise ValueError(fam)
+    if via_setter:       # the public setter as an alternative route to the same configuration
+        g.set_boundaries([conv_flag(f, btype) for f in flags])
+    return g
 
 
-def nominal_degree(case, n):
+def with_boundary_count(fam1, level):
+    """`levelToNumPointsWithBoundary` of one dimension"""
+    if fam1 == "Leja":
+        return 2 if level == 0 else 2 * (level + 1) - 1
+    return 2 ** level + 1
+
+
+def nominal_degree(case, n, d=0):
     """the degree the property text promises for n points in one dimension"""
-    fam = case["family"]
+    fam = fams_of(case)[d]
     if fam == "Trapezoidal":
         return 1
     if fam == "Simpson":
@@ -98,15 +161,20 @@ def mono_function(ks, centers, scales):
                 super().__init__()
                 self.ks, self.cs, self.ss = np.array(ks, dtype=float), np.array(cs, dtype=float), np.array(ss, dtype=float)
 
+                self.seen = []          # use-site observation: every point the integrator evaluates f at
+
             def output_length(self):
                 return 1
 
             def eval(self, coordinates):
+                self.seen.append(tuple(float(c) for c in coordinates))
                 x = (np.asarray(coordinates, dtype=float) - self.cs) / self.ss
                 return float(np.prod(x ** self.ks))
 
             def eval_vectorized(self, coordinates):
-                x = (np.asarray(coordinates, dtype=float) - self.cs) / self.ss
+                arr = np.asarray(coordinates, dtype=float)
+                self.seen.extend(tuple(float(c) for c in row) for row in arr.reshape((-1, arr.shape[-1])))
+                x = (arr - self.cs) / self.ss
                 return np.prod(x ** self.ks, axis=-1).reshape((*np.shape(coordinates)[:-1], 1))
 
         _FUNCTION_BASE.append(Mono)
@@ -137,11 +205,61 @@ def exponent_sets(rng, degs, thorough):
 
 
 # ------------------------------------------------------------------------------------------------ one case
+def call_args(case, grid, S, E, lv):
+    """the arguments of ONE request in the container types the case prescribes.  `reuse_buffers`: a single pair of numpy
+    arrays per grid object, overwritten in place for every request (a caller that recycles its arrays, catalogue c)"""
+    start = [float(x) for x in S]
+    end = [float(x) for x in E]
+    at = case.get("argtype", "array")
+    if case.get("reuse_buffers"):
+        buf = getattr(grid, "_verif_buf", None)
+        if buf is None or len(buf[0]) != len(start):
+            buf = (np.zeros(len(start)), np.zeros(len(start)), np.zeros(len(start), dtype=np.int64))
+            grid._verif_buf = buf
+        np.copyto(buf[0], start)
+        np.copyto(buf[1], end)
+        np.copyto(buf[2], np.array(lv, dtype=np.int64))
+        return buf[0], buf[1], buf[2]
+    if at == "list":
+        s_arg, e_arg = list(start), list(end)
+    elif at == "tuple":
+        s_arg, e_arg = tuple(start), tuple(end)
+    elif at == "npscalar":
+        s_arg, e_arg = [np.float64(x) for x in start], [np.float64(x) for x in end]
+    else:
+        s_arg, e_arg = np.array(start), np.array(end)
+    lt = case.get("lvtype", "list")
+    lv_arg = tuple(lv) if lt == "tuple" else np.array(lv, dtype=np.int64) if lt == "nparray" else list(lv)
+    return s_arg, e_arg, lv_arg
+
+
+def const_function(dim):
+    return mono_function(tuple([0] * dim), np.zeros(dim), np.ones(dim))
+
+
+def sibling_work(sib, scase):
+    """one request on the sibling grid; returns its (points, weights) snapshot"""
+    Ss = [fr(x) for x in scase["start"]]
+    Es = [fr(x) for x in scase["end"]]
+    s_arg, e_arg, lv_arg = call_args(scase, sib, Ss, Es, [int(x) for x in scase["lv"]])
+    sib.setCurrentArea(s_arg, e_arg, lv_arg)
+    P, W = sib.get_points_and_weights()
+    snap = ([tuple(float(x) for x in p) for p in P], [float(w) for w in W])
+    try:
+        sib.integrate(const_function(scase["dim"]), lv_arg, s_arg, e_arg)
+    except Exception:  # noqa: BLE001 -- the sibling is only a disturbance here; it is checked when it is the main grid
+        pass
+    return snap
+
+
 def run_case(ctx, drv, case, rng, thorough=False, verbose=False):
     """returns True iff no violation / disagreement was reported for this case"""
     fam = case["family"]
     dim = case["dim"]
-    bd = bool(case["boundary"])
+    flags = flags_of(case)
+    fams = fams_of(case)
+    uniform = all(f == flags[0] for f in flags)
+    bd = all(flags)
     md = bool(case.get("modified", False))
     lv = [int(x) for x in case["lv"]]
     A = [fr(x) for x in case["a"]]
@@ -151,7 +269,7 @@ def run_case(ctx, drv, case, rng, thorough=False, verbose=False):
     start = np.array([float(x) for x in S])
     end = np.array([float(x) for x in E])
     vol = float(np.prod(end - start))
-    base_tags = {"family": fam, "boundary": bd, "modified": md, "dim": dim}
+    base_tags = {"family": fam, "boundary": (flags[0] if uniform else "per-dimension"), "modified": md, "dim": dim}
     if fam in HIER:
         base_tags["p"] = int(case["p"])
     if case.get("integrator") is not None:
@@ -159,7 +277,7 @@ def run_case(ctx, drv, case, rng, thorough=False, verbose=False):
     ok = True
     # Leja with boundary off builds the interpolatory rule on the points it keeps (announced = returned since the repair
     # of level_to_num_points_1d), so it is a complete rule of nominal degree n-1 for its n points
-    complete = bd or md or fam in ("GaussLegendre", "Leja")
+    complete = all(flags[d] or md or fams[d] in ("GaussLegendre", "Leja") for d in range(dim))
     pub = canon(case)
 
     def viol(probe, extra, detail):
@@ -180,49 +298,78 @@ def run_case(ctx, drv, case, rng, thorough=False, verbose=False):
 
     # ---------------- implementation: the observe_at calls
     grid = case.get("_grid")
+    sib = case.get("_sibling")
+    scase = case.get("sibling")
     exc = None
     P = W = N = None
+    sib_snap = None
+    s_arg = e_arg = lv_arg = None
     try:
+        if scase is not None and sib is None:
+            try:
+                sib = make_grid(scase)
+            except Exception:  # noqa: BLE001
+                sib = None
         if grid is None:
             grid = make_grid(case)
             for h in case.get("history", []):      # replay: bring a fresh object into the state the failing run had
-                hs = np.array([float(fr(x)) for x in h["start"]])
-                he = np.array([float(fr(x)) for x in h["end"]])
+                hS = [fr(x) for x in h["start"]]
+                hE = [fr(x) for x in h["end"]]
+                hcase = dict(case, argtype=h.get("argtype", "array"), lvtype=h.get("lvtype", "list"))
                 try:
+                    hs, he, hl = call_args(hcase, grid, hS, hE, [int(x) for x in h["lv"]])
                     if h.get("mode") == "integrate-first":
-                        grid.integrate(mono_function(tuple([0] * dim), np.zeros(dim), np.ones(dim)), h["lv"], hs, he)
+                        grid.integrate(const_function(dim), hl, hs, he)
                     else:
-                        grid.setCurrentArea(hs, he, h["lv"])
+                        grid.setCurrentArea(hs, he, hl)
                         grid.get_points_and_weights()
                 except Exception:  # noqa: BLE001
                     pass
+        if sib is not None:       # a sibling object (other flags / family, same box and levels) works BEFORE ...
+            try:
+                sib_snap = sibling_work(sib, scase)
+            except Exception:  # noqa: BLE001 -- a sibling that cannot serve its own request is judged when it is the main grid
+                sib = None
+                ctx.count("sibling_raised")
+        s_arg, e_arg, lv_arg = call_args(case, grid, S, E, lv)
         if case.get("mode") == "integrate-first":
             # let `integrate` itself set the area (as the combination loop does), then read the grid WITHOUT refreshing it
             try:
-                grid.integrate(mono_function(tuple([0] * dim), np.zeros(dim), np.ones(dim)), lv, start, end)
+                grid.integrate(const_function(dim), lv_arg, s_arg, e_arg)
             except Exception:  # noqa: BLE001 -- classified by the explicit calls below
-                grid.setCurrentArea(start, end, lv)
+                grid.setCurrentArea(s_arg, e_arg, lv_arg)
         else:
-            grid.setCurrentArea(start, end, lv)
-        P, W = grid.get_points_and_weights()
-        N = [int(x) for x in grid.levelToNumPoints(lv)]
-        P = [tuple(float(x) for x in p) for p in P]
-        W = [float(w) for w in W]
+            grid.setCurrentArea(s_arg, e_arg, lv_arg)
+        if sib is not None and case.get("sibling_between", True):     # ... and BETWEEN the main grid's calls
+            try:
+                other = make_grid(scase) if scase.get("fresh_between") else sib
+                snap_b = sibling_work(other, scase)
+                if other is sib:
+                    sib_snap = snap_b
+            except Exception:  # noqa: BLE001
+                sib = None
+                ctx.count("sibling_raised")
+        P_raw, W_raw = grid.get_points_and_weights()
+        N_raw = grid.levelToNumPoints(lv_arg)
+        N = [int(x) for x in N_raw]
+        P = [tuple(float(x) for x in p) for p in P_raw]
+        W = [float(w) for w in W_raw]
     except Exception as e:  # noqa: BLE001 -- classified below
         exc = e
     model_line = None
-    if fam in MODELLED and drv is not None:
+    if fam in MODELLED and uniform and drv is not None:
         model_line = drv.ask("tens %s %d %d %s %s %s %s %s" % (MODELLED[fam], bd, md, vecstr(A), vecstr(B), vecstr(S), vecstr(E),
                                                              ",".join(str(x) for x in lv)))
     if exc is not None:
         # which dimension raises?  (only used to tag the finding)
         dbad, tch = None, "?"
-        for d in range(dim):
-            try:
-                grid.grids[d].set_current_area(start[d], end[d], lv[d])
-            except Exception:  # noqa: BLE001
-                dbad = d
-                break
+        if grid is not None:
+            for d in range(dim):
+                try:
+                    grid.grids[d].set_current_area(start[d], end[d], lv[d])
+                except Exception:  # noqa: BLE001
+                    dbad = d
+                    break
         if dbad is not None:
             tch = touch(case, dbad)
         ctx.count("impl_exception_" + type(exc).__name__)
@@ -232,6 +379,39 @@ def run_case(ctx, drv, case, rng, thorough=False, verbose=False):
         if model_line is not None:
             corr("exception-vs-model", repr(exc)[:200], model_line[:200])
         return ok
+
+    # ---------------- (a, c) repeated queries give the same answer; the returned containers are not the grid's state;
+    #                         the caller's arguments are left as they were
+    if case.get("requery", True):
+        try:
+            if isinstance(W_raw, np.ndarray) and W_raw.size:
+                W_raw *= -3.0
+            if isinstance(P_raw, list):
+                del P_raw[:]
+            if isinstance(N_raw, np.ndarray) and N_raw.size:
+                N_raw[:] = 0
+            P2, W2 = grid.get_points_and_weights()
+            N2 = [int(x) for x in grid.levelToNumPoints(lv_arg)]
+            P2 = [tuple(float(x) for x in p) for p in P2]
+            W2 = [float(w) for w in W2]
+            if P2 != P or W2 != W or N2 != N:
+                viol("requery", {"kind": "second-answer-differs"},
+                     {"first": {"N": N, "points": P[:4], "weights": W[:4]}, "second": {"N": N2, "points": P2[:4], "weights": W2[:4]}})
+        except Exception as e:  # noqa: BLE001
+            viol("requery", {"kind": "exception:" + type(e).__name__}, {"exception": repr(e)[:300]})
+    if ([float(x) for x in s_arg] != [float(x) for x in S] or [float(x) for x in e_arg] != [float(x) for x in E]
+            or [int(x) for x in lv_arg] != lv):
+        viol("requery", {"kind": "arguments-modified"}, {"start": [float(x) for x in s_arg], "end": [float(x) for x in e_arg],
+                                                         "levelvec": [int(x) for x in lv_arg]})
+    # ---------------- (b) the sibling still holds its own grid after the main grid worked
+    if sib is not None and sib_snap is not None:
+        try:
+            Ps, Ws = sib.get_points_and_weights()
+            snap2 = ([tuple(float(x) for x in p) for p in Ps], [float(w) for w in Ws])
+            if snap2 != sib_snap:
+                viol("sibling", {"kind": "sibling-changed"}, {"before": [x[:4] for x in sib_snap], "after": [x[:4] for x in snap2]})
+        except Exception as e:  # noqa: BLE001
+            viol("sibling", {"kind": "exception:" + type(e).__name__}, {"exception": repr(e)[:300]})
 
     # ---------------- (2a) count clause
     announced = int(np.prod(N)) if len(N) else 0
@@ -260,6 +440,40 @@ def run_case(ctx, drv, case, rng, thorough=False, verbose=False):
             viol("inside", {"kind": "not-strictly-ascending"}, {"dimension": d, "coords": c[:12]})
             break
 
+    # ---------------- (d) every public read route tells the same story as get_points_and_weights
+    if cnt_ok and case.get("routes", True):
+        try:
+            bad = []
+            if int(grid.get_num_points()) != len(P):
+                bad.append(("get_num_points", int(grid.get_num_points()), len(P)))
+            nwb = [int(x) for x in grid.levelToNumPointsWithBoundary(lv_arg)]
+            if nwb != [with_boundary_count(fams[d], lv[d]) for d in range(dim)]:
+                bad.append(("levelToNumPointsWithBoundary", nwb))
+            if [int(x) for x in grid.levelToNumPoints(lv_arg)] != N:
+                bad.append(("levelToNumPoints-after-WithBoundary", [int(x) for x in grid.levelToNumPoints(lv_arg)], N))
+            gb = [bool(x) for x in grid.get_boundaries()]
+            want = [False if fams[d] == "GaussLegendre" else flags[d] for d in range(dim)]
+            if gb != want:
+                bad.append(("get_boundaries", gb, want))
+            for d in range(dim):
+                if [float(x) for x in grid.get_coordinates_dim(d)] != [float(x) for x in grid.get_coordinates()[d]]:
+                    bad.append(("get_coordinates_dim", d))
+            if announced > 0:
+                for _ in range(3):
+                    idx = [rng.randrange(N[d]) for d in range(dim)]
+                    flat = 0
+                    for d in range(dim):
+                        flat = flat * N[d] + idx[d]
+                    wv = float(grid.getWeight(idx))
+                    cv = tuple(float(x) for x in grid.getCoordinate(idx))
+                    if cv != P[flat] or abs(wv - W[flat]) > 1e-14 * max(abs(W[flat]), 1e-300):
+                        bad.append(("getWeight/getCoordinate", idx, wv, W[flat], cv, P[flat]))
+                        break
+            if bad:
+                viol("routes", {"kind": str(bad[0][0])}, {"mismatch": [str(x) for x in bad[:3]]})
+        except Exception as e:  # noqa: BLE001
+            viol("routes", {"kind": "exception:" + type(e).__name__}, {"exception": repr(e)[:300]})
+
     # ---------------- (1) correspondence with the model (trapezoid, Simpson)
     if model_line is not None:
         impl_N = "N [" + ",".join(str(x) for x in N) + "]"
@@ -279,11 +493,35 @@ def run_case(ctx, drv, case, rng, thorough=False, verbose=False):
                 same = False
             if not same:
                 corr("tens", "%s P %s W %s" % (impl_N, P[:8], W[:8]), model_line)
+    elif drv is not None and (fam == "Mixed" or (fam in MODELLED and not uniform)):
+        # per-dimension flags / MixedGrid: the 1-D model of every trapezoidal or Simpson dimension
+        for d in range(dim):
+            if fams[d] not in MODELLED:
+                continue
+            m = drv.ask("g1 %s %s %s %s %s %d %d %d" % (MODELLED[fams[d]], fstr(A[d]), fstr(B[d]), fstr(S[d]), fstr(E[d]), lv[d],
+                                                     flags[d], md and fams[d] == "Trapezoidal"))
+            cP = [float(x) for x in grid.coordinate_array[d]]
+            cW = [float(x) for x in grid.weights[d]]
+            try:
+                headp, rest = m.split(" P ")
+                mP, mW = rest.split(" W ")
+                mn = int(headp.split()[0].split("=")[1])
+                mP = [float(parse_frac(x)) for x in mP.strip("[]").split(",")] if mP != "[]" else []
+                mW = [float(parse_frac(x)) for x in mW.strip("[]").split(",")] if mW != "[]" else []
+                same = (mn == N[d] and mP == cP and len(mW) == len(cW)
+                        and all(abs(x - y) <= 1e-13 * max(abs(y), 1e-300) for x, y in zip(cW, mW)))
+            except Exception:  # noqa: BLE001
+                same = False
+            if not same:
+                corr("g1", {"dim": d, "n": N[d], "coords": cP[:10], "weights": cW[:10]}, m[:400])
+                break
 
     # Gauss-Legendre: the affine map [-1,1] -> [start,end] of the code vs. the model (leggauss output as exact input)
-    if fam == "GaussLegendre" and drv is not None and cnt_ok:
+    if "GaussLegendre" in fams and drv is not None and cnt_ok:
         import numpy.polynomial.legendre as legendre
         for d in range(dim):
+            if fams[d] != "GaussLegendre":
+                continue
             xi, om = legendre.leggauss(N[d])
             m = drv.ask("gl %s %s %s %s" % (fstr(S[d]), fstr(E[d]), ",".join(fstr(float(x)) for x in xi), ",".join(fstr(float(x)) for x in om)))
             try:
@@ -304,8 +542,10 @@ def run_case(ctx, drv, case, rng, thorough=False, verbose=False):
 
     # Leja: the weights of the code (first row of the inverse of the Legendre collocation matrix, times the length) vs. the
     # model's certified exact solution of the linear system on the implementation's OWN reference points
-    if fam == "Leja" and drv is not None and cnt_ok:
+    if "Leja" in fams and drv is not None and cnt_ok:
         for d in range(dim):
+            if fams[d] != "Leja":
+                continue
             g1 = grid.grids[d]
             try:     # the reference points depend on (count, borders) only: computed once per harness run (fmin is slow);
                      # the model's transported points are compared with the grid's own coordinates below in any case
@@ -338,14 +578,28 @@ def run_case(ctx, drv, case, rng, thorough=False, verbose=False):
                                       "weights": [float(x) for x in grid.weights[d]][:12]}, m[:600])
                 break
 
+    def seen_ok(f, what):
+        """(j) use-site: the integrator evaluated f exactly at the returned points (the point-by-point integrator may skip
+        zero weights)"""
+        seen = sorted(set(f.seen))
+        if case.get("integrator") == "old":
+            want = sorted(set(p for p, w in zip(P, W) if w != 0))
+            good = set(want) <= set(seen) <= set(P)
+        else:
+            good = seen == sorted(set(P))
+        if not good:
+            viol("integrate", {"kind": "evaluation-points"}, {"call": what, "evaluated": seen[:6], "returned_points": sorted(set(P))[:6],
+                                                              "n_evaluated": len(seen), "n_points": len(P)})
+        return good
+
     # ---------------- (2c) complete rule: sum of weights, exactness, integrate
     n_moments = 0
+    Pa = np.array(P, dtype=float).reshape((len(P), dim))
+    Wa = np.array(W, dtype=float)
     if complete and cnt_ok and announced > 0:
-        degs = [nominal_degree(case, N[d]) for d in range(dim)]
+        degs = [nominal_degree(case, N[d], d) for d in range(dim)]
         mids = [(S[d] + E[d]) / 2 for d in range(dim)]
         halves = [(E[d] - S[d]) / 2 for d in range(dim)]
-        Pa = np.array(P, dtype=float).reshape((len(P), dim))
-        Wa = np.array(W, dtype=float)
         if fam not in HIER:
             sw = float(np.sum(Wa))
             if abs(sw - vol) > TOL * vol:
@@ -370,10 +624,19 @@ def run_case(ctx, drv, case, rng, thorough=False, verbose=False):
                 csf, ssf = np.array([float(x) for x in cs]), np.array([float(x) for x in ss])
                 fv = np.prod(((Pa - csf) / ssf) ** np.array(ks, dtype=float), axis=1)
                 scale = max(abs(exact), vol * float(np.max(np.abs(fv))) if len(fv) else 0.0, 1e-300)
+                # floating point is not modelled: a node x is stored with an error of about eps*|x|, which moves the shifted
+                # monomial ((x-m)/h)^k by k*eps*|x|/h -- only visible on boxes far from the origin (catalogue e)
+                cond = sum(ks[d] * max(abs(start[d]), abs(end[d])) / float(halves[d]) for d in range(dim)) if shifted else float(sum(ks))
+                tol = TOL * scale + 8 * np.finfo(float).eps * cond * scale
                 n_moments += 1
                 if fam in HIER:
                     try:
-                        got = float(np.asarray(grid.integrate(mono_function(ks, csf, ssf), lv, start, end)).reshape(-1)[0])
+                        f = mono_function(ks, csf, ssf)
+                        if rng.random() < 0.2:
+                            f.deactivate_caching()       # (l) a rarely used toggle of the integrand object
+                        got = float(np.asarray(grid.integrate(f, lv_arg, s_arg, e_arg)).reshape(-1)[0])
+                        if n_moments <= 2:
+                            seen_ok(f, "integrate(hierarchical)")
                     except Exception as e:  # noqa: BLE001
                         viol("integrate", {"kind": "exception:" + type(e).__name__}, {"exponents": ks, "exception": repr(e)[:300]})
                         reported.add((beyond, shifted))
@@ -382,7 +645,7 @@ def run_case(ctx, drv, case, rng, thorough=False, verbose=False):
                 else:
                     got = float(np.dot(Wa, fv))
                     probe = "exactness"
-                if abs(got - exact) > TOL * scale:
+                if abs(got - exact) > tol:
                     reported.add((beyond, shifted))
                     viol(probe, {"degree_max": max(ks), "shifted": shifted, "beyond_depth": beyond},
                          {"exponents": ks, "got": got, "exact": exact, "nominal_degrees": degs, "num_points": N,
@@ -395,13 +658,18 @@ def run_case(ctx, drv, case, rng, thorough=False, verbose=False):
         for ks in (dict.fromkeys(ks_list) if (fam not in HIER and ok) else []):
             csf, ssf = np.zeros(dim), np.ones(dim)
             try:
-                got = float(np.asarray(grid.integrate(mono_function(ks, csf, ssf), lv, start, end)).reshape(-1)[0])
+                f = mono_function(ks, csf, ssf)
+                if rng.random() < 0.2:
+                    f.deactivate_caching()
+                got = float(np.asarray(grid.integrate(f, lv_arg, s_arg, e_arg)).reshape(-1)[0])
                 exact = float(exact_moment(S, E, ks, [Fr(0)] * dim, [Fr(1)] * dim))
                 fv = np.prod(Pa ** np.array(ks, dtype=float), axis=1)
                 ref = float(np.dot(Wa, fv))
                 scale = max(abs(exact), vol * float(np.max(np.abs(fv))), 1e-300)
                 if abs(got - ref) > TOL * scale or abs(got - exact) > TOL * scale:
                     viol("integrate", {"kind": "value"}, {"exponents": ks, "integrate": got, "sum_w_f": ref, "exact": exact})
+                    break
+                if not seen_ok(f, "integrate"):
                     break
                 # model moment
                 if model_line is not None:
@@ -415,12 +683,32 @@ def run_case(ctx, drv, case, rng, thorough=False, verbose=False):
                         corr("mom", got, m)
             except Exception as e:  # noqa: BLE001
                 viol("integrate", {"kind": "exception:" + type(e).__name__}, {"exponents": ks, "exception": repr(e)[:300]})
+                break
+    elif cnt_ok and announced > 0 and fam not in HIER:
+        # incomplete (boundary-off) nodal rule: no closed form is promised, but `integrate` must be the rule it returns:
+        # sum w_i f(x_i) over exactly the returned points (use-site observation of the integrator)
+        ks = tuple([1] * dim)
+        try:
+            f = mono_function(ks, np.zeros(dim), np.ones(dim))
+            got = float(np.asarray(grid.integrate(f, lv_arg, s_arg, e_arg)).reshape(-1)[0])
+            fv = np.prod(Pa ** np.array(ks, dtype=float), axis=1)
+            ref = float(np.dot(Wa, fv))
+            scale = max(vol * float(np.max(np.abs(fv))), 1e-300)
+            if abs(got - ref) > TOL * scale:
+                viol("integrate", {"kind": "value-incomplete-rule"}, {"exponents": ks, "integrate": got, "sum_w_f": ref})
+            else:
+                seen_ok(f, "integrate(incomplete rule)")
+        except Exception as e:  # noqa: BLE001
+            viol("integrate", {"kind": "exception:" + type(e).__name__}, {"exponents": ks, "exception": repr(e)[:300]})
     ctx.count("moments_checked", n_moments)
 
-    # ---------------- (2d) trapezoidal family, boundary off (plain basis): drops exactly the global-boundary points
-    if fam == "Trapezoidal" and not bd and not md and cnt_ok:
-        on_case = dict(case, boundary=True, modified=False)
-        on_case.pop("_grid", None)
+    # ---------------- (2d) trapezoidal dimensions with boundary off (plain basis): exactly the global-boundary points of
+    #                       those dimensions are dropped, the remaining points and weights are unchanged
+    dims_off = [d for d in range(dim) if fams[d] == "Trapezoidal" and not flags[d] and not md]
+    if dims_off and cnt_ok:
+        on_case = {k: v for k, v in case.items() if k not in ("_grid", "_sibling", "sibling", "history", "mode")}
+        on_flags = [True if d in dims_off else flags[d] for d in range(dim)]
+        on_case.update(bflags=on_flags, boundary=all(on_flags), modified=False)
         try:
             g_on = make_grid(on_case)
             g_on.setCurrentArea(start, end, lv)
@@ -428,11 +716,11 @@ def run_case(ctx, drv, case, rng, thorough=False, verbose=False):
             a_f = [float(x) for x in A]
             b_f = [float(x) for x in B]
             expect = [(tuple(float(x) for x in p), float(w)) for p, w in zip(P_on, W_on)
-                      if not any(p[d] == a_f[d] or p[d] == b_f[d] for d in range(dim))]
+                      if not any(p[d] == a_f[d] or p[d] == b_f[d] for d in dims_off)]
             got = list(zip(P, W))
             if got != expect:
                 dbad = None
-                for d in range(dim):
+                for d in dims_off:
                     c_on = [float(x) for x in g_on.coordinate_array[d]]
                     w_on = [float(x) for x in g_on.weights[d]]
                     e_d = [(x, w) for x, w in zip(c_on, w_on) if x != a_f[d] and x != b_f[d]]
@@ -440,7 +728,8 @@ def run_case(ctx, drv, case, rng, thorough=False, verbose=False):
                     if e_d != g_d:
                         dbad = d
                         break
-                viol("trap-boundary-off-drop", {"touch": touch(case, dbad) if dbad is not None else "?",
+                viol("trap-boundary-off-drop", {"family": "Trapezoidal", "boundary": False, "container": fam,
+                                                "touch": touch(case, dbad) if dbad is not None else "?",
                                                 "level0": (lv[dbad] == 0) if dbad is not None else None},
                      {"dimension": dbad, "returned": got[:6], "boundary_on_minus_global_boundary": expect[:6]})
         except Exception as e:  # noqa: BLE001
@@ -449,19 +738,26 @@ def run_case(ctx, drv, case, rng, thorough=False, verbose=False):
 
 
 # ------------------------------------------------------------------------------------------------ generators
-def gen_box(rng, dim):
+def gen_box(rng, dim, extreme=False):
+    """dyadic global box per dimension (never cubic by construction).  `extreme` (catalogue e): boxes far from the origin
+    (|a| / (b - a) up to 10^4, both signs) and tiny or huge intervals (2^-40 .. 2^10), still exactly representable"""
     A, B = [], []
     for _ in range(dim):
-        a = Fr(rng.randint(-8, 8), 4)
-        L = Fr(rng.choice([1, 2, 3, 4, 6, 8, 12, 16]), 4)
-        if rng.random() < 0.3:
-            a, L = Fr(0), Fr(1)      # the unit interval (the only domain Clenshaw-Curtis' boundary logic knows)
+        if extreme and rng.random() < 0.8:
+            L = Fr(rng.choice([1, 3, 5]), 1) * Fr(2) ** rng.choice([-40, -30, -20, -10, -3, 0, 4, 10])
+            a = L * rng.choice([-1, 1]) * rng.choice([0, 1, 7, 100, 1000, 4096, 10000])
+        else:
+            a = Fr(rng.randint(-8, 8), 4)
+            L = Fr(rng.choice([1, 2, 3, 4, 6, 8, 12, 16]), 4)
+            if rng.random() < 0.3:
+                a, L = Fr(0), Fr(1)      # the unit interval (the only domain Clenshaw-Curtis' boundary logic knows)
         A.append(a)
         B.append(a + L)
     return A, B
 
 
-def gen_subbox(rng, A, B, pattern=None):
+def gen_subbox(rng, A, B, pattern=None, deep=False):
+    """dyadic sub-box; `deep`: down to 2^-12 of the box (the relative gap to the boundary stays > 1e-8 >> isclose's 1e-9)"""
     S, E = [], []
     for d in range(len(A)):
         L = B[d] - A[d]
@@ -469,7 +765,7 @@ def gen_subbox(rng, A, B, pattern=None):
         if pat == "both":
             j, i = 0, 0
         else:
-            j = rng.randint(1 if pat != "none" else 2, 4)
+            j = rng.randint(1 if pat != "none" else 2, 12 if deep else 4)
             n = 2 ** j
             i = 0 if pat == "lower" else n - 1 if pat == "upper" else rng.randint(1, n - 2)
         S.append(A[d] + L * i / 2 ** j)
@@ -477,12 +773,13 @@ def gen_subbox(rng, A, B, pattern=None):
     return S, E
 
 
-OLD_INTEGRATOR_FAMILIES = ("Trapezoidal", "Simpson", "ClenshawCurtis", "Leja")   # constructors with an `integrator` option
+OLD_INTEGRATOR_FAMILIES = ("Trapezoidal", "Simpson", "ClenshawCurtis", "Leja", "Mixed")   # constructors with an `integrator` option
 OLD_CAP = 700        # the point-by-point integrator is a python loop: keep those grids small
+SETTER_FAMILIES = ("Trapezoidal", "Simpson", "ClenshawCurtis", "Leja")                    # boundary flags also through set_boundaries
 
 
 def gen_levels(rng, dim, lmax, fam, cap=None):
-    cap = cap or {1: 4000, 2: 1500, 3: 1200}[dim]
+    cap = cap or {1: 4000, 2: 1500, 3: 1200, 4: 900}[dim]
     while True:
         lv = [rng.randint(0, lmax) for _ in range(dim)]
         if rng.random() < 0.25:
@@ -493,16 +790,21 @@ def gen_levels(rng, dim, lmax, fam, cap=None):
 
 def gen_case(rng, thorough, fam=None):
     fam = fam or rng.choice(["Trapezoidal", "Trapezoidal", "Trapezoidal", "Simpson", "Simpson", "ClenshawCurtis", "Leja",
-                             "GaussLegendre", "Lagrange", "BSpline"])
-    dim = rng.choice([1, 1, 2, 2, 3])
+                             "GaussLegendre", "Lagrange", "BSpline", "Mixed", "Mixed"])
+    dim = rng.choice([1, 1, 2, 2, 2, 3, 3, 4]) if fam not in HIER else rng.choice([1, 1, 2, 2, 3])
+    if fam == "Mixed" and dim == 1:
+        dim = 2
     lmax = 5 if thorough else 4
-    if fam in HIER and dim == 3:
+    if dim >= 3:
         lmax = 3
+    if dim == 4:
+        lmax = 2
     if fam == "Leja":
-        lmax = 3 if dim == 3 else 5      # Leja has negative weights at levels 3 (n=7) and 5 (n=11): keep both in every tier
-    integrator = "old" if (fam in OLD_INTEGRATOR_FAMILIES and rng.random() < 0.4) else None
-    A, B = gen_box(rng, dim)
-    S, E = gen_subbox(rng, A, B)
+        lmax = 3 if dim >= 3 else 5      # Leja has negative weights at levels 3 (n=7) and 5 (n=11): keep both in every tier
+    integrator = "old" if (fam in OLD_INTEGRATOR_FAMILIES and rng.random() < 0.35) else None
+    extreme = rng.random() < 0.3
+    A, B = gen_box(rng, dim, extreme)
+    S, E = gen_subbox(rng, A, B, deep=extreme)
     lv = gen_levels(rng, dim, lmax, fam, OLD_CAP if integrator else None)
     if fam == "Leja" and rng.random() < 0.5:
         lv[rng.randrange(dim)] = rng.choice([3, 5] if dim < 3 else [3])
@@ -519,7 +821,81 @@ def gen_case(rng, thorough, fam=None):
         case["p"] = rng.choice([1, 2, 3, 4, 5])
     if fam == "BSpline":
         case["p"] = rng.choice([1, 3, 5])
+    # (d) option forwarding: the flag as numpy.bool_ / 0-1, per dimension through MixedGrid or the public setter
+    if fam != "GaussLegendre":
+        case["btype"] = rng.choice(["bool", "bool", "np", "int"])
+    if fam == "Mixed":
+        case["fams"] = [rng.choice(MIXABLE) for _ in range(dim)]
+        if len(set(case["fams"])) == 1:
+            case["fams"][0] = rng.choice([f for f in MIXABLE if f != case["fams"][0]])
+        case["bflags"] = [rng.random() < 0.6 for _ in range(dim)]
+        if "Leja" in case["fams"]:
+            case["lv"] = [min(l, 3) if dim >= 3 else l for l in case["lv"]]
+    elif fam in SETTER_FAMILIES and not case["modified"] and rng.random() < 0.3:
+        case["route"] = "set_boundaries"
+        if dim >= 2 and rng.random() < 0.6:
+            case["bflags"] = [rng.random() < 0.5 for _ in range(dim)]
+    if case.get("bflags"):
+        case["boundary"] = all(case["bflags"])
+    # (c, i) how the caller hands over its arguments
+    case["argtype"] = rng.choice(["array", "array", "list", "tuple", "npscalar"])
+    case["lvtype"] = rng.choice(["list", "list", "tuple", "nparray"])
+    if rng.random() < 0.3:
+        case["reuse_buffers"] = True
     return case
+
+
+def gen_sibling(rng, case):
+    """(b) a second grid object, alive at the same time: same box, sub-box and level vector (equal keys), different
+    configuration -- other boundary flag / basis / order / integrator, or the sibling family sharing the 1-D base class"""
+    sib = {k: v for k, v in case.items() if k in ("family", "dim", "a", "b", "start", "end", "lv", "boundary", "modified", "p",
+                                                  "fams", "bflags", "btype")}
+    fam = case["family"]
+    kind = rng.choice(["flag", "flag", "family", "box"])
+    if fam == "Mixed":
+        sib["bflags"] = [not f for f in case["bflags"]]
+        sib["boundary"] = all(sib["bflags"])
+    elif kind == "family" or fam == "GaussLegendre":
+        twin = {"Trapezoidal": "Simpson", "Simpson": "Trapezoidal", "Lagrange": "BSpline", "BSpline": "Lagrange",
+                "ClenshawCurtis": "Trapezoidal", "Leja": "ClenshawCurtis", "GaussLegendre": "Leja"}[fam]
+        sib["family"] = twin
+        sib["modified"] = False
+        sib.pop("bflags", None)
+        if twin in HIER:
+            sib["p"] = rng.choice([1, 3])
+            sib["boundary"] = True
+        if twin == "Leja":
+            sib["lv"] = [min(l, 3) for l in sib["lv"]]
+    else:
+        sib.pop("bflags", None)
+        if fam in HIER:
+            sib["p"] = rng.choice([q for q in ([1, 2, 3, 4, 5] if fam == "Lagrange" else [1, 3, 5]) if q != case["p"]])
+        elif fam == "Trapezoidal" and rng.random() < 0.5:
+            sib["boundary"], sib["modified"] = False, not case.get("modified", False)
+        else:
+            sib["boundary"], sib["modified"] = not case["boundary"], False
+    if kind == "box" and fam != "Mixed":
+        A, B = gen_box(rng, case["dim"])
+        S, E = gen_subbox(rng, A, B)
+        sib.update(a=[fstr(x) for x in A], b=[fstr(x) for x in B], start=[fstr(x) for x in S], end=[fstr(x) for x in E])
+    if rng.random() < 0.3:
+        sib["fresh_between"] = True      # a brand-new sibling is constructed between the main grid's calls
+    return sib
+
+
+def feedback_area(rng, case, grid):
+    """(i) the next area is built from the grid's OWN coordinates of the previous request (as the refinement does); only
+    for the equidistant families, whose coordinates are dyadic"""
+    S, E = [], []
+    for d in range(case["dim"]):
+        c = sorted(set(float(x) for x in grid.get_coordinates_dim(d)))
+        lo, hi = float(fr(case["start"][d])), float(fr(case["end"][d]))
+        c = sorted(set(c + [lo, hi]))
+        i = rng.randrange(len(c) - 1)
+        j = rng.randint(i + 1, len(c) - 1)
+        S.append(Fr(c[i]))
+        E.append(Fr(c[j]))
+    return S, E
 
 
 def canon(case):
@@ -550,14 +926,20 @@ def malformed_stream(ctx, drv):
 def run(ctx):
     thorough = ctx.tier == "thorough"
     ctx.rule = ("local grid families (Trapezoidal incl. boundary off / modified basis, Simpson, ClenshawCurtis, Leja, GaussLegendre, "
-                "Lagrange p1-5, BSpline p1,3,5) x dim 1-3 x random dyadic boxes [a,b] x dyadic sub-boxes touching the global boundary on "
-                "no/lower/upper/both sides per dimension x level vectors (<=4 quick, <=5 thorough; grids of <= 4000 points) x boundary flag; "
-                "each grid object is reused for 3 areas; a case = (family, flags, p, box, sub-box, level vector), distinct by all of these, "
+                "Lagrange p1-5, BSpline p1,3,5, MixedGrid of different 1-D families) x dim 1-4 x random dyadic non-cubic boxes [a,b] "
+                "(30% far from the origin / tiny or huge) x dyadic sub-boxes touching the global boundary on no/lower/upper/both sides per "
+                "dimension (down to 2^-12 of the box) x level vectors (<=4 quick, <=5 thorough; grids of <= 4000 points) x boundary flag "
+                "(bool / numpy.bool_ / 0-1; per dimension through set_boundaries and MixedGrid) x integrator option; each grid object is "
+                "reused for 3 areas (one of them built from its own coordinates, same or new level vector), 40% with a sibling grid of "
+                "other configuration working before and between its calls, arguments as arrays / lists / tuples / numpy scalars / "
+                "recycled buffers, queries repeated; a case = (family, flags, p, box, sub-box, level vector, history, sibling), "
                 "non-trivial if the level vector is not all-zero or the sub-box is a proper one")
     ctx.assumptions = [
-        "leggauss(n), cos, fmin (Leja points), numpy.linalg.inv/solve are not modelled: Clenshaw-Curtis, Leja, Gauss-Legendre, "
-        "Lagrange and B-spline families are validated by the oracle only (no theorem)",
-        "isclose(start, a) / end == b are modelled as equality of rationals (dyadic inputs)",
+        "leggauss(n), cos, fmin (Leja points), numpy.linalg.inv/solve are not modelled: Clenshaw-Curtis, Gauss-Legendre nodes, "
+        "Lagrange and B-spline families are validated by the oracle only; Leja weights and the Gauss-Legendre affine map are tied "
+        "to the model on the implementation's own reference data",
+        "isclose(start, a) / end == b are modelled as equality of rationals (dyadic inputs; sub-boxes keep a relative gap > 1e-8 "
+        "to a boundary they do not touch, above isclose's 1e-9)",
     ]
     drv = ctx.driver("drv_c08")
     malformed_stream(ctx, drv)
@@ -571,7 +953,7 @@ def run(ctx):
             for mdf in ([False, True] if (fam == "Trapezoidal" and not bd) else [False]):
                 for pat in ["both", "lower", "upper", "none"]:
                     for p in ([2, 3] if fam == "Lagrange" else [3] if fam == "BSpline" else [None]):
-                        A, B = ([Fr(0)], [Fr(2)]) if rng.random() < 0.5 else gen_box(rng, 1)
+                        A, B = ([Fr(0)], [Fr(2)]) if rng.random() < 0.5 else gen_box(rng, 1, rng.random() < 0.3)
                         S, E = gen_subbox(rng, A, B, pat)
                         for l in range(0, 6 if fam == "Leja" else 4):
                             for integ in ([None, "old"] if fam in OLD_INTEGRATOR_FAMILIES else [None]):
@@ -581,10 +963,12 @@ def run(ctx):
                                     c["p"] = p
                                 if integ is not None:
                                     c["integrator"] = integ
+                                if fam != "GaussLegendre":
+                                    c["btype"] = ["bool", "np", "int"][(l + len(sweep)) % 3]
                                 sweep.append(c)
     k = 0
     for c in sweep:
-        ok = run_case(ctx, drv, c, rng, thorough)
+        safe_run_case(ctx, drv, c, rng, thorough)
         account(ctx, c, k)
         k += 1
     for g in range(n_groups):
@@ -592,34 +976,52 @@ def run(ctx):
             ctx.count("stopped_by_time_budget")
             break
         case = gen_case(rng, thorough)
-        grid = None
+        sib_case = gen_sibling(rng, case) if rng.random() < 0.4 else None
+        grid = sib = None
         history = []
         for rep in range(3):     # the same grid object serves several areas, as in the extend-split strategy
             if rep > 0:
                 A = [fr(x) for x in case["a"]]
                 B = [fr(x) for x in case["b"]]
-                S, E = gen_subbox(rng, A, B)
-                case = dict(case, start=[fstr(x) for x in S], end=[fstr(x) for x in E],
-                            lv=gen_levels(rng, case["dim"], max(case["lv"]) if max(case["lv"]) > 0 else 1, case["family"],
-                                          OLD_CAP if case.get("integrator") else None))
+                if grid is not None and case["family"] in ("Trapezoidal", "Simpson", "Lagrange", "BSpline") and rng.random() < 0.35:
+                    try:
+                        S, E = feedback_area(rng, case, grid)
+                        ctx.count("area_from_own_coordinates")
+                    except Exception:  # noqa: BLE001
+                        S, E = gen_subbox(rng, A, B)
+                else:
+                    S, E = gen_subbox(rng, A, B, deep=rng.random() < 0.3)
+                new_lv = case["lv"] if rng.random() < 0.4 else \
+                    gen_levels(rng, case["dim"], max(case["lv"]) if max(case["lv"]) > 0 else 1, case["family"],
+                               OLD_CAP if case.get("integrator") else None)
+                case = dict(case, start=[fstr(x) for x in S], end=[fstr(x) for x in E], lv=list(new_lv),
+                            argtype=rng.choice(["array", "list", "tuple", "npscalar"]) if not case.get("reuse_buffers") else case["argtype"])
             c = canon(case)
             if rng.random() < 0.3:
                 c["mode"] = "integrate-first"
                 ctx.count("mode_integrate_first")
             if grid is None:
                 history = []
+                sib = None
             if history:
                 c["history"] = list(history)
+            if sib_case is not None:
+                c["sibling"] = dict(sib_case, start=c["start"], end=c["end"], lv=c["lv"]) if sib_case["a"] == c["a"] else dict(sib_case)
+                if c["sibling"]["family"] == "Leja" or "Leja" in c["sibling"].get("fams", []):
+                    c["sibling"]["lv"] = [min(l, 3) for l in c["sibling"]["lv"]]
+                ctx.count("with_sibling")
             if grid is None:
                 try:
                     grid = make_grid(c)
+                    sib = make_grid(c["sibling"]) if sib_case is not None else None
                 except Exception as e:  # noqa: BLE001
                     ctx.violation("count", {"family": c["family"], "boundary": c["boundary"], "kind": "constructor-exception:" + type(e).__name__},
                                   c, {"exception": repr(e)[:300]})
                     break
-            c_run = dict(c, _grid=grid)
-            ok = run_case(ctx, drv, c_run, rng, thorough)
-            history.append({"start": c["start"], "end": c["end"], "lv": c["lv"], "mode": c.get("mode", "set-area")})
+            c_run = dict(c, _grid=grid, _sibling=sib)
+            ok = safe_run_case(ctx, drv, c_run, rng, thorough)
+            history.append({"start": c["start"], "end": c["end"], "lv": c["lv"], "mode": c.get("mode", "set-area"),
+                            "argtype": c.get("argtype", "array"), "lvtype": c.get("lvtype", "list")})
             if not ok:
                 ctx.count("failing_cases")
                 grid = None          # continue with a fresh object
@@ -629,10 +1031,32 @@ def run(ctx):
             break
 
 
+def safe_run_case(ctx, drv, case, rng, thorough=False, verbose=False):
+    """(k) nothing ends as a harness crash: whatever escapes run_case is recorded with the concrete case"""
+    try:
+        return run_case(ctx, drv, case, rng, thorough, verbose)
+    except Exception as e:  # noqa: BLE001
+        import traceback
+        ctx.count("harness_exception_" + type(e).__name__)
+        ctx.corr_break("C08/exception-outside-the-observed-calls", canon(case), {"exception": repr(e)[:300],
+                                                                                "trace": traceback.format_exc()[-1200:]})
+        if verbose:
+            print("  exception outside the observed calls:", traceback.format_exc()[-1500:])
+        return False
+
+
 def account(ctx, c, k):
     ctx.count("family_" + c["family"])
     ctx.count("integrator_%s_%s" % (c.get("integrator") or "default", c["family"]))
     ctx.count("dim_%d" % c["dim"])
+    ctx.count("btype_" + c.get("btype", "bool"))
+    ctx.count("argtype_" + ("recycled-buffers" if c.get("reuse_buffers") else c.get("argtype", "array")))
+    if c.get("route"):
+        ctx.count("route_" + c["route"])
+    if c.get("bflags") and len(set(c["bflags"])) > 1:
+        ctx.count("flags_differ_per_dimension")
+    if any(abs(float(fr(x))) > 50 for x in c["a"]) or any(float(fr(y)) - float(fr(x)) < 1e-3 for x, y in zip(c["a"], c["b"])):
+        ctx.count("box_extreme_scale")
     ctx.count("boundary_%s" % ("on" if c["boundary"] else "off") + ("_modified" if c.get("modified") else ""))
     for d in range(c["dim"]):
         ctx.count("touch_" + touch(c, d))
@@ -646,7 +1070,7 @@ def replay(ctx, rp):
     case = canon(rp["case"])
     drv = ctx.driver("drv_c08")
     print("replay case:", case)
-    ok = run_case(ctx, drv, case, random.Random(0), thorough=True, verbose=True)
+    ok = safe_run_case(ctx, drv, case, random.Random(0), thorough=True, verbose=True)
     known = [(fid, n) for fid, (f, n) in ctx.known_hits.items()]
     if known:
         print("  matched known finding(s):", known)
